@@ -183,6 +183,7 @@ func Mint(spec Spec, parent *Cert) *Cert {
 		} else {
 			tmpl.MaxPathLen = -1
 		}
+		tmpl.ExtKeyUsage = spec.EKU // a CA restricted to a purpose (nil: unrestricted)
 	} else {
 		tmpl.KeyUsage = x509.KeyUsageDigitalSignature
 		tmpl.ExtKeyUsage = spec.EKU
